@@ -55,11 +55,16 @@ def channels(design, simname='Simulation', seed=0, nsteps=5):
         col = []
         for t in range(nsteps):
             c = rnd.random()
-            if c < 0.25:
+            if c < 0.2:
                 col.append('?')
-            elif c < 0.5:
+            elif c < 0.4:
                 col.append(ref[o][t] + 1)
                 wrong.add((t, o, ref[o][t] + 1, ref[o][t]))
+            elif c < 0.6:
+                # an expected value of 0 is an expectation like any other (met or not), not a don't-care
+                col.append(0)
+                if ref[o][t] != 0:
+                    wrong.add((t, o, 0, ref[o][t]))
             else:
                 col.append(ref[o][t])
         expected[o] = col
